@@ -5,6 +5,7 @@ import SpecKitV.Props.C02
 import SpecKitV.Props.SchedGen
 import SpecKitV.Props.VecGen
 import SpecKitV.Props.StartsGen
+import SpecKitV.Props.PostGen
 import SpecKitV.Props.Utils
 
 #print axioms roundHalfUp_eq
@@ -45,5 +46,8 @@ import SpecKitV.Props.Utils
 #print axioms gen_vec_walk_eq_plan
 #print axioms gen_ltf_starts_eq_model
 #print axioms gen_ltf_starts_safe
+#print axioms gen_vec_post_eq_model
+#print axioms gen_new_post_eq_vec_post
+#print axioms gen_post_starts_safe
 #print axioms gen_round_half_up_eq_model
 #print axioms gen_round_half_up_eq_floor
